@@ -6,6 +6,7 @@ import (
 	"go/token"
 	"go/types"
 	"regexp"
+	"sort"
 	"strings"
 
 	"golang.org/x/tools/go/packages"
@@ -79,6 +80,8 @@ func checkC04(c *Ctx) {
 	checkParsePointerAssertions(c, ev, gen)
 
 	checkOptionalFile(c, ev)
+	checkIndexedJoins(c, ev)
+	checkInnerArraysKept(c, "C04.R1.inner-arrays-kept", ev)
 	checkFacadeFormats(c, ev)
 	// the generated server routes on the embedded flattened document: it must be the flattened
 	// document (a $ref'ed path item of the original has no operations to route)
@@ -528,24 +531,37 @@ func checkDiscriminatorAgreement(c *Ctx, rule string, gen *packages.Package) {
 }
 
 
-// checkOptionalFile: wherever the server's file binder lets http.ErrMissingFile through the
-// error arm, an arm of its own must take it before the value is bound: otherwise an omitted
-// optional file reaches the handler as a non-nil runtime.File with nil data.
+// checkOptionalFile: wherever the server's file binder lets sentinel errors of r.FormFile
+// (http.ErrMissingFile, http.ErrNotMultipart) through the error arm, an arm of its own must take
+// exactly those before the value is bound: otherwise an omitted optional file reaches the handler
+// as a non-nil runtime.File with nil data. And since BindRequest accepts forms that are not
+// multipart (it falls back to ParseForm on http.ErrNotMultipart), the optional file binder must
+// accept them too: a client with no file to send does not build a multipart body.
 func checkOptionalFile(c *Ctx, ev *tmpl.Evaluator) {
 	rule := "C04.R1.optional-file"
-	c.Rule(rule, "every `err != http.ErrMissingFile` exclusion in the server's file binder is followed, under the same guards and before the value is bound, by an `err == http.ErrMissingFile` arm", 1)
+	c.Rule(rule, "the sentinel errors excluded from the error arm of the server's file binder are taken, under the same guards and before the value is bound, by an arm of their own; they include http.ErrNotMultipart when BindRequest itself accepts non-multipart forms", 2)
 	l := linearOf(c, ev, "serverParameter")
 	if l == nil {
 		c.Anchor(rule, "template serverParameter", "not found")
 		return
 	}
-	excl := l.Find(regexp.MustCompile(`&& \w+ != http\.ErrMissingFile`))
-	arms := l.Find(regexp.MustCompile(`else if \w+ == http\.ErrMissingFile \{`))
+	sentinel := regexp.MustCompile(`http\.(Err\w+)`)
+	excl := l.Find(regexp.MustCompile(`if \w+ != nil ((?:&& \w+ != http\.Err\w+\s*)+)\{`))
+	arms := l.Find(regexp.MustCompile(`else if (\w+ == http\.Err\w+(?: \|\| \w+ == http\.Err\w+)*) \{`))
 	binds := l.Find(regexp.MustCompile(`\.bind⟦pascalize \.ID⟧\(`))
 	if len(excl) == 0 {
-		c.Unk(rule, "serverParameter › file binder", l.Tree.File, "no ErrMissingFile exclusion found")
+		c.Unk(rule, "serverParameter › file binder", l.Tree.File, "no sentinel exclusion found")
 		return
 	}
+	set := func(s string) string {
+		var out []string
+		for _, m := range sentinel.FindAllStringSubmatch(s, -1) {
+			out = append(out, m[1])
+		}
+		sort.Strings(out)
+		return strings.Join(out, ",")
+	}
+	tolerant := regexp.MustCompile(`ParseMultipartForm\([^)]*\); \w+ != nil \{\s*if \w+ != http\.ErrNotMultipart \{`).MatchString(l.Text)
 	for i, e := range excl {
 		next := len(l.Text)
 		for _, b := range binds {
@@ -553,14 +569,21 @@ func checkOptionalFile(c *Ctx, ev *tmpl.Evaluator) {
 				next = b.Start
 			}
 		}
-		ok := false
+		// guards of the optional piece of the condition
+		eg := tmpl.GuardString(l.GuardsAt(e.Start + strings.Index(l.Text[e.Start:e.End], "&&")))
+		ok, got := false, ""
 		for _, a := range arms {
-			if a.Start > e.End && a.Start < next && tmpl.GuardString(a.Guards) == tmpl.GuardString(e.Guards) {
-				ok = true
+			if a.Start > e.End && a.Start < next && tmpl.GuardString(a.Guards) == eg {
+				got = set(a.Match[1])
+				ok = got == set(e.Match[1])
 			}
 		}
-		c.Check(ok, rule, fmt.Sprintf("serverParameter › file binder #%d › a missing optional file is a case of its own", i+1), l.Tree.PosStr(e.Pos), "no-op arm under ["+tmpl.GuardString(e.Guards)+"]",
-			"http.ErrMissingFile is let through the error arm under ["+tmpl.GuardString(e.Guards)+"] but no arm takes it before the value is bound: the handler gets &runtime.File{Data: nil} for a file the client did not send")
+		c.Check(ok, rule, fmt.Sprintf("serverParameter › file binder #%d › a missing optional file is a case of its own", i+1), l.Tree.PosStr(e.Pos), "no-op arm for "+set(e.Match[1])+" under ["+eg+"]",
+			"the error arm lets "+set(e.Match[1])+" through under ["+eg+"] but the arm that follows takes ["+got+"]: the handler gets &runtime.File{Data: nil} for a file the client did not send")
+		if tolerant {
+			c.Check(strings.Contains(set(e.Match[1]), "ErrNotMultipart"), rule, fmt.Sprintf("serverParameter › file binder #%d › a form that is not multipart has no file", i+1), l.Tree.PosStr(e.Pos), "http.ErrNotMultipart is excluded like http.ErrMissingFile",
+				"BindRequest accepts a form that is not multipart (ParseForm fall-back) but the optional file binder answers 400 on http.ErrNotMultipart: a client that has no file to send (and so does not build a multipart body) is refused")
+		}
 	}
 }
 
@@ -600,5 +623,81 @@ func checkFacadeFormats(c *Ctx, ev *tmpl.Evaluator) {
 	}
 	if n == 0 {
 		c.Unk(rule, "clientFacade › constructors", l.Tree.File, "no constructor distributing a strfmt.Registry found")
+	}
+}
+
+
+// checkIndexedJoins: swag.JoinByFormat / SplitByFormat return an empty slice for empty input;
+// generated code that takes element [0] of such a result (a variable named after the parameter)
+// must be inside `if len(X) > 0 {` or follow `if len(X) == 0 { X = []string{…} }`.
+func checkIndexedJoins(c *Ctx, ev *tmpl.Evaluator) {
+	rule := "C04.R1.indexed-joins"
+	c.Rule(rule, "every `X[0]` on a joined/split slice in generated client and server code is dominated by a non-emptiness test of X (or a preceding `if len(X) == 0 { X = … }`)", 8)
+	rx := regexp.MustCompile(`((?:\w*⟦[^⟧]*⟧\w*)+)\[0\]`)
+	for _, tn := range ev.F.Names() {
+		l := linearOf(c, ev, tn)
+		if l == nil || !(strings.HasPrefix(l.Tree.Asset, "client/") || strings.HasPrefix(l.Tree.Asset, "server/")) {
+			continue
+		}
+		for k, oc := range l.Find(rx) {
+			name := oc.Match[1]
+			q := regexp.QuoteMeta(name)
+			ok := false
+			// (a) enclosing `if len(X) > 0 {`: nearest preceding one whose block is still open
+			if locs := regexp.MustCompile(`if len\(`+q+`\) > 0 \{`).FindAllStringIndex(l.Text[:oc.Start], -1); len(locs) > 0 {
+				from := locs[len(locs)-1][1]
+				depth := 1
+				for _, ch := range l.Text[from:oc.Start] {
+					switch ch {
+					case '{':
+						depth++
+					case '}':
+						depth--
+					}
+					if depth == 0 {
+						break
+					}
+				}
+				ok = depth > 0
+			}
+			// (b) preceding `if len(X) == 0 { X = []string{…} … }`
+			if !ok {
+				if locs := regexp.MustCompile(`if len\(`+q+`\) == 0 \{\s*`+q+` = \[\]string\{[^}]+\}`).FindAllStringIndex(l.Text[:oc.Start], -1); len(locs) > 0 {
+					ok = true
+				}
+			}
+			c.Check(ok, rule, fmt.Sprintf("%s › %s › %s[0] #%d", l.Tree.Asset, tn, name, k+1), l.Tree.PosStr(oc.Pos), "dominated by a non-emptiness test",
+				name+"[0] is taken without a test of len("+name+"): swag.JoinByFormat / SplitByFormat return an empty slice for an empty (inner) array and the generated code panics with index out of range")
+		}
+	}
+}
+
+// checkInnerArraysKept: the server's nested-array binder rebuilds the outer array element by
+// element; an inner array of length 0 is an element like any other — where the recursion is
+// wrapped in `if len(inner) > 0 {`, an else arm must append the (empty) element.
+func checkInnerArraysKept(c *Ctx, rule string, ev *tmpl.Evaluator) {
+	c.Rule(rule, "sliceparambinder appends one element per inner array: a `if len(<inner>C) > 0 {` around the recursive binding has an else arm that appends too", 1)
+	l := linearOf(c, ev, "sliceparambinder")
+	if l == nil {
+		c.Anchor(rule, "template sliceparambinder", "not found")
+		return
+	}
+	appendRx := `⟦varname \.Child\.ValueExpression⟧R = append\(⟦varname \.Child\.ValueExpression⟧R, `
+	conds := l.Find(regexp.MustCompile(`if len\(⟦[^⟧]*⟧C\) > 0 \{`))
+	appends := l.Find(regexp.MustCompile(appendRx))
+	if len(appends) < 3 {
+		c.Unk(rule, "sliceparambinder › appends", l.Tree.File, fmt.Sprintf("%d appends to the rebuilt array found, expected one per kind of child (array, map, other)", len(appends)))
+		return
+	}
+	for i, cd := range conds {
+		rest := l.Text[cd.End:]
+		// the text between the condition and its closing brace holds the recursive template call (no braces of its own in the linear text)
+		m := regexp.MustCompile(`(?s)^(.*?)\n\s*\}( else \{\s*(?://[^\n]*\s*)*` + appendRx + `)?`).FindStringSubmatch(rest)
+		has := m != nil && m[2] != ""
+		c.Check(has, rule, fmt.Sprintf("sliceparambinder › if len(inner) > 0 #%d › else arm appends the empty element", i+1), l.Tree.PosStr(cd.Pos), "else { R = append(R, …) }",
+			"the recursive binding of an inner array and the append of its result are skipped when the inner array is empty, and nothing is appended instead: [[1],[],[2]] reaches the handler as [[1],[2]]")
+	}
+	if len(conds) == 0 {
+		c.Ok(rule, "sliceparambinder › inner arrays are bound unconditionally", l.Tree.File, "no length test around the recursion")
 	}
 }
